@@ -131,8 +131,16 @@ pub fn model_with<F: SS, D: Dst<F>>(dist: &D, centroids: &Array2<F>) -> KMeans<F
 }
 
 fn tiny<F: Scalar>() -> F {
-    // 2^-40: positive (required by the parameter check), below every non-zero centroid shift on the domain
-    F::lit(9.094947017729282e-13)
+    // default 2^-40: positive (required by the parameter check), below every non-zero centroid shift on the domain
+    F::lit(0.5f64.powi(TOLSHIFT.with(|t| t.get())))
+}
+
+thread_local! {
+    /// tolerance of `fit` = 2^-TOLSHIFT (parameter `tolshift`, default 40)
+    static TOLSHIFT: std::cell::Cell<i32> = std::cell::Cell::new(40);
+}
+fn set_tol(p: &Params) {
+    TOLSHIFT.with(|t| t.set(p.get("tolshift", 40) as i32));
 }
 
 fn fit_pre<F: SS, D: Dst<F>>(dist: &D, c0: &Array2<F>, x: &Array2<F>, iters: u64, runs: usize) -> KMeans<F, D> {
@@ -233,6 +241,7 @@ fn assign_d<F: SS, D: Dst<F>>(p: &Params, dist: D, pw: usize) {
     }
 }
 fn assign<F: SS>(p: &Params) {
+    set_tol(p);
     with_metric!(p.u("metric", 1), assign_d, p)
 }
 
@@ -278,6 +287,7 @@ fn lloyd_d<F: SS, D: Dst<F>>(p: &Params, dist: D, pw: usize) {
     }
 }
 fn lloyd<F: SS>(p: &Params) {
+    set_tol(p);
     with_metric!(p.u("metric", 1), lloyd_d, p)
 }
 
@@ -298,6 +308,55 @@ fn mono_d<F: SS, D: Dst<F>>(p: &Params, dist: D, pw: usize) {
     let tol = tol_for(b, cpw, d) * n as f64;
     let (ca, cb) = (cost(cpw, a.centroids(), &x), cost(cpw, bm.centroids(), &x));
     let cb = if mutate == 1 { cb + F::lit(0.5) } else { cb };
+    let lemmas = p.u("lemmas", 0);
+    if lemmas >= 1 {
+        // The same statement, handed to the solver together with the two steps of the textbook argument
+        // (L_a: the labels used by iteration m+1 are nearest-centroid labels for the budget-m centroids;
+        //  L_b: within each such cluster the mean update does not increase the summed squared distance):
+        //    O1 = (L_a and L_b) => statement,   O2 = (L_a and L_b) or statement.
+        // Both follow from the statement and together they imply it, so nothing more than the statement is demanded.
+        let labels: Array1<usize> = a.predict(&x);
+        let (old, new) = (a.centroids().clone(), bm.centroids().clone());
+        let t = tol_for(b, cpw, d);
+        let mut lem = vec![];
+        for i in 0..n {
+            for j in 0..k {
+                if j != labels[i] {
+                    lem.push(le_tol(rdist(cpw, &row(&old, labels[i]), &row(&x, i)), rdist(cpw, &row(&old, j), &row(&x, i)), t));
+                }
+            }
+        }
+        for c in 0..k {
+            let (mut so, mut sn) = (F::lit(0.0), F::lit(0.0));
+            for i in 0..n {
+                if labels[i] == c {
+                    so = so + rdist(cpw, &row(&old, c), &row(&x, i));
+                    sn = sn + rdist(cpw, &row(&new, c), &row(&x, i));
+                }
+            }
+            lem.push(le_tol(sn, so, t));
+        }
+        let stmt = le_tol(cb, ca, t * (n + k + 1) as f64);
+        if lemmas == 4 {
+            // one step at a time (`which`), so that a step the solver cannot decide does not take the others with it
+            if let Some(l) = lem.get(p.u("which", 0)) {
+                check("mono.cost does not increase with the budget [or a step of the textbook argument holds]", l.or(stmt));
+            }
+            observe(ca);
+            observe(cb);
+            return;
+        }
+        let lem = SymB::all(&lem);
+        if lemmas != 3 {
+            check("mono.cost does not increase with the budget [given the two steps of the textbook argument]", lem.implies(stmt));
+        }
+        if lemmas != 2 {
+            check("mono.cost does not increase with the budget [or a step of the textbook argument holds]", lem.or(stmt));
+        }
+        observe(ca);
+        observe(cb);
+        return;
+    }
     let name = if cpw == 1 { "mono.cost does not increase with the budget (L1 metric: not a theorem for mean updates)" } else { "mono.cost does not increase with the budget" };
     check(name, le_tol(cb, ca, tol));
     if p.u("start", 0) == 1 {
@@ -308,6 +367,7 @@ fn mono_d<F: SS, D: Dst<F>>(p: &Params, dist: D, pw: usize) {
     observe(cb);
 }
 fn mono<F: SS>(p: &Params) {
+    set_tol(p);
     with_metric!(p.u("metric", 4), mono_d, p)
 }
 
@@ -349,7 +409,10 @@ fn report_d<F: SS, D: Dst<F>>(p: &Params, dist: D, pw: usize) {
     if cur.dim() != (k, d) || counts.len() != k || !counts_are_integers {
         return;
     }
-    let still: Vec<SymB> = cur.iter().zip(prev.iter()).map(|(a, b)| close(*a, *b, pow2_at_least(1e-9))).collect();
+    // budget 1: the previous centroids are inputs (integers), "unchanged" is exact in both semantics;
+    // later budgets compare two rounded values: up to 2^-30
+    let still_tol = if m == 1 { 0.0 } else { pow2_at_least(1e-9) };
+    let still: Vec<SymB> = cur.iter().zip(prev.iter()).map(|(a, b)| close(*a, *b, still_tol)).collect();
     let still = SymB::all(&still);
     if region == 0 {
         assume(still);
@@ -359,21 +422,28 @@ fn report_d<F: SS, D: Dst<F>>(p: &Params, dist: D, pw: usize) {
     let tol = tol_for(b, pw, d) * n as f64;
     let want = cost(pw, &cur, &x);
     let want = if mutate == 1 { want + F::lit(1.0) } else { want };
-    check("report.inertia is the mean minimal distance to the returned centroids", close(model.inertia() * F::lit(n as f64), want, tol));
+    let ob = p.u("ob", 0); // 0 = both obligations, 1 = inertia only, 2 = counts only
+    if ob != 2 {
+        check("report.inertia is the mean minimal distance to the returned centroids", close(model.inertia() * F::lit(n as f64), want, tol));
+    }
     let counts_m = if mutate == 2 { let mut c = counts.clone(); c.rotate_left(1); c } else { counts.clone() };
-    check("report.counts are those of a nearest-centroid assignment to the returned centroids", counts_realisable(pw, &cur, &x, &counts_m, tol_for(b, pw, d)));
+    if ob != 1 {
+        check("report.counts are those of a nearest-centroid assignment to the returned centroids", counts_realisable(pw, &cur, &x, &counts_m, tol_for(b, pw, d)));
+    }
     observe(model.inertia());
     for c in &counts {
         observe_usize(*c);
     }
 }
 fn report<F: SS>(p: &Params) {
+    set_tol(p);
     with_metric!(p.u("metric", 1), report_d, p)
 }
 
 // ------------------------------------------------------------------------------------------------
 /// `KMeansInit::Random` with a seeded generator, 1 restart vs 2 restarts from the same seed.
-/// part=0: inertia/centroid obligations; part=1: the reported counts belong to the returned run.
+/// part=0: inertia/centroid obligations; part=1/2: the reported counts belong to the returned restart
+/// (1: paths on which the last restart is returned, 2: paths on which only an earlier one is).
 fn restarts_d<F: SS, D: Dst<F>>(p: &Params, dist: D, pw: usize) {
     let (n, k, d, b) = (p.u("n", 3), p.u("k", 2), p.u("d", 1), p.get("B", 16));
     let (m, seed, part) = (p.get("m", 1) as u64, p.get("seed", 0) as u64, p.u("part", 0));
@@ -428,6 +498,12 @@ fn restarts_d<F: SS, D: Dst<F>>(p: &Params, dist: D, pw: usize) {
     } else {
         // which restart do the returned centroids come from?  (if both give identical centroid terms the
         // counts of either are accepted)
+        // part=1: the returned centroids are those of the last restart; part=2: of an earlier restart only
+        if part == 1 {
+            assume_bool(from_second);
+        } else if part == 2 {
+            assume_bool(from_first && !from_second);
+        }
         let c2 = shadow_counts(&two);
         let ok = (from_first && c2 == shadow_counts(&one)) || (from_second && c2 == shadow_counts(&second));
         if from_first || from_second {
@@ -437,6 +513,7 @@ fn restarts_d<F: SS, D: Dst<F>>(p: &Params, dist: D, pw: usize) {
     let _ = (first_pick, second_pick);
 }
 fn restarts<F: SS>(p: &Params) {
+    set_tol(p);
     with_metric!(p.u("metric", 1), restarts_d, p)
 }
 
@@ -453,15 +530,15 @@ pub fn register(v: &mut Vec<HarnessDef>) {
     harness!(v, "c09.lloyd", "C09", lloyd,
         "one iteration from a precomputed start: for some nearest-centroid assignment, new_centroid*(count+1) == old_centroid + sum of assigned points",
         ["linfa_clustering::KMeansValidParams::fit", "k_means::algorithm::{update_memberships_and_dists, closest_centroid, compute_centroids}", "KMeansInit::Precomputed (init.rs KMeansInit::run)", "linfa_nn::distance::*::{rdistance,distance}"],
-        ["coordinates are integers in [-B,B]", "n_runs=1, max_n_iterations=1, tolerance 2^-40", "metric=2: L2Dist::distance concretises; with budget 1 its value cannot change the result (the loop stops after the first iteration in any case)", "cross-multiplied equality up to 1e-9*(1+2B)*(n+1)"]);
+        ["coordinates are integers in [-B,B]", "n_runs=1, max_n_iterations=1, tolerance 2^-tolshift (default 2^-40)", "metric=2: L2Dist::distance concretises; with budget 1 its value cannot change the result (the loop stops after the first iteration in any case)", "cross-multiplied equality up to 1e-9*(1+2B)*(n+1)"]);
     harness!(v, "c09.mono", "C09", mono,
-        "budgets m and m+1 from the same precomputed start: sum of minimal reduced distances to the returned centroids does not increase",
-        ["linfa_clustering::KMeansValidParams::fit (iteration loop, convergence test)", "k_means::algorithm::{update_memberships_and_dists, compute_centroids}"],
-        ["coordinates are integers in [-B,B]", "squared Euclidean cost (metric=3: L2Dist::rdistance; the convergence test uses the same squared distance instead of L2Dist::distance, which concretises)", "tolerance 2^-40: only an exact fixed point stops before the budget", "comparison up to 1e-9*(1+scale)*n"]);
+        "budgets m and m+1 from the same precomputed start: the sum of minimal squared distances to the returned centroids does not increase (lemmas=2/4: the same statement submitted together with the two steps of the textbook argument)",
+        ["linfa_clustering::KMeansValidParams::fit (iteration loop)", "k_means::algorithm::{update_memberships_and_dists, closest_centroid, compute_centroids}", "KMeans::predict (labels of the budget-m model, lemmas only)"],
+        ["coordinates are integers in [-B,B]", "squared Euclidean cost; metric=4: L2Dist::rdistance; metric=3 with cost=2 (d=1 only): L1Dist::rdistance, which induces the same nearest-centroid relation on the line, so path conditions stay linear", "the convergence test never fires (NoStop): budgets m and m+1 are exactly m and m+1 iterations", "with an L1 cost the statement is not a theorem for mean updates (counterexample in the report) and is not registered", "comparison up to 2^-30*(1+scale)*n"]);
     harness!(v, "c09.report", "C09", report,
         "inertia() and cluster_count() against a recomputation from the returned centroids; region 0 = last update was a fixed point, region 1 = it moved a centroid",
         ["linfa_clustering::KMeansValidParams::fit (reporting)", "KMeans::{inertia, cluster_count, centroids}"],
-        ["coordinates are integers in [-B,B]", "n_runs=1", "counts: some nearest-centroid assignment to the returned centroids has exactly these counts (ties free)", "region predicate: |returned - previous centroid| <= 1e-9 in every coordinate"]);
+        ["coordinates are integers in [-B,B]", "n_runs=1", "counts: some nearest-centroid assignment to the returned centroids has exactly these counts (ties free)", "region predicate: returned == previous centroid in every coordinate (exactly for budget 1, up to 2^-30 for larger budgets)"]);
     harness!(v, "c09.restarts", "C09", restarts,
         "KMeansInit::Random with a seeded generator: 2 restarts vs 1 restart from the same seed; returned centroids, inertia and counts belong to one and the same restart; centroids inside the bounding box",
         ["linfa_clustering::KMeansValidParams::fit (restart loop, min_inertia/best_centroids, reporting)", "k_means::init::random_init", "k_means::algorithm::{update_memberships_and_dists, compute_centroids}"],
